@@ -60,8 +60,8 @@ def run_group(gname, tier, seed):
     t0 = time.time()
     built = vlib.build_group(gname, canary=True)
     with cf.ThreadPoolExecutor(max_workers=4) as ex:
-        fm = ex.submit(vlib.run_verus, built["main_path"])
-        fc = ex.submit(vlib.run_verus, built["canary_path"], 1)
+        fm = ex.submit(vlib.run_verus, built["main_path"], 5)
+        fc = ex.submit(vlib.run_verus, built["canary_path"], 1, 3)  # small rlimit: a vacuous contract verifies at once; running out of resources counts as "not vacuous"
         extra = []
         if tier == "thorough":
             for k in range(2):
@@ -70,11 +70,17 @@ def run_group(gname, tier, seed):
         can = fc.result()
         extra = [e.result() for e in extra]
     am = vlib.analyse(built["main"], main)
-    if any("resource limit" in u.lower() or "rlimit" in u.lower() for u in am["undecided"]):
-        # a unit ran out of solver resources: one retry with a 3x budget and a 5 min wall-clock cap before giving up (exit 2, never an alarm)
-        main = vlib.run_verus(built["main_path"], 20, 30, None, 300)
-        am = vlib.analyse(built["main"], main)
-        am["rlimit_retry"] = True
+    if any("resource limit" in u.lower() or "rlimit" in u.lower() for u in am["undecided"]) and main.get("wall", 1e9) < 60:
+        # a unit ran out of solver resources in a short run: one retry with a 3x budget and a 3 min wall-clock cap before
+        # giving up (exit 2, never an alarm); long runs are not retried
+        try:
+            main2 = vlib.run_verus(built["main_path"], 20, 30, None, 180)
+            am2 = vlib.analyse(built["main"], main2)
+            if len(am2["undecided"]) < len(am["undecided"]):
+                main, am = main2, am2
+                am["rlimit_retry"] = True
+        except vlib.Undecided:
+            pass
     ac = vlib.analyse(built["canary"], can)
     # proof hints are optional accelerators: a hint that no longer holds is removed and the
     # obligations are re-checked without it, so a failed hint is never itself a violation
@@ -85,7 +91,7 @@ def run_group(gname, tier, seed):
             break
         dropped |= hf
         a2, p2 = vlib.rebuild_without_hints(built, dropped)
-        main = vlib.run_verus(p2)
+        main = vlib.run_verus(p2, 5)
         built["main"] = a2
         am = vlib.analyse(a2, main)
     am["hints_dropped"] = sorted("%s @ %s" % x for x in dropped)
@@ -156,7 +162,9 @@ def main():
             # a failed precondition at a call site / hint belongs to the unit's safety obligation
             bad = o["obligation"] in failed_obs or (o["kind"] == "safety" and any(
                 f["owner"] == o["unit"] and f["obligation"] not in [x["obligation"] for x in obs if x["kind"] != "safety"] for f in failures if f.get("group") == gname))
-            o["discharged"] = (not bad) and fr is not None and (fr["success"] or True)
+            # a function that failed without a clause-level diagnostic (resource limit, timeout) discharges nothing
+            unit_has_diag = any(f.get("owner") == o["unit"] or f.get("clause_unit") == o["unit"] for f in am["failures"])
+            o["discharged"] = (not bad) and fr is not None and (fr["success"] or unit_has_diag)
             if fr is None:
                 undecided.append("%s: no verifier result for %s" % (gname, u["fn"]))
                 o["discharged"] = False
@@ -301,6 +309,13 @@ def main():
         undecided.append("assumed-contract audit failed: %r" % (e,))
     if audit_out["ensures_not_proved"]:
         undecided.append("an assumed callee contract is stronger than what its owner proves: %s" % audit_out["ensures_not_proved"])
+    # an obligation that fails only because of a listed open finding is reported as KNOWN-FINDING and is not part of the
+    # claim: it is taken out of the obligations / discharged counts (and named under known_findings_hit)
+    kf_obs = set(f["obligation"] for _k, f in known_hits)
+    for o in obligations:
+        if o["obligation"] in kf_obs:
+            o["known_finding"] = True
+    obligations = [o for o in obligations if not o.get("known_finding")]
     n_ob = len(obligations)
     n_dis = sum(1 for o in obligations if o.get("discharged"))
     rc = 0
